@@ -4,10 +4,10 @@ from . import common, refine, vocab, render, sig
 from .common import log
 
 SMALL_FAMS = ("F3a", "F3b", "F3c", "F4")
-ALL_FAMS = ["F1a", "F1b", "F1c", "F1d", "F1e", "F1f", "F1g", "F2a", "F2b", "F2c", "F2z", "F2s", "F3a", "F3b", "F3c", "F4", "F5a", "F5b", "F7a", "F7b", "FW"]
+ALL_FAMS = ["F1a", "F1b", "F1c", "F1d", "F1e", "F1f", "F1g", "F2a", "F2b", "F2c", "F2z", "F2s", "F3a", "F3b", "F3c", "F4", "F5a", "F5b", "F5c", "F7a", "F7b", "F7c", "F8", "F9", "FW"]
 # quick-tier sample size per family (the thorough tier takes every program of every family)
 QUICK_N = {"F1a": 500, "F1b": 250, "F1c": 150, "F1d": 250, "F1e": 100, "F1f": 250, "F1g": 100, "F2a": 400, "F2z": 60, "F2s": 60, "F2b": 63,
-           "F2c": 120, "F3a": 150, "F3b": 80, "F3c": 12, "F4": 26, "F5a": 200, "F5b": 120, "F7a": 84, "F7b": 250, "FW": 10}
+           "F2c": 120, "F3a": 150, "F3b": 80, "F3c": 12, "F4": 26, "F5a": 200, "F5b": 120, "F5c": 200, "F7a": 84, "F7b": 250, "F7c": 200, "F8": 400, "F9": 350, "FW": 10}
 
 
 def sample_programs(tier, fams=None, scale=1.0, name="gen"):
